@@ -682,6 +682,36 @@ BReset(s) ==
                     !.qs = EmptyFn], 1)
 
 (***************************************************************************)
+(* Unsafe.DumpEntities / LoadEntities (unsafe.go:145-206).                 *)
+(***************************************************************************)
+\* the dump: the pool as it is (free list threaded through it), the ids a Filter0 query yields (all archetypes in
+\* order, their tables in order, rows in order), next, available
+BDump(s) ==
+    LET RECURSIVE Rows(_, _)
+        Rows(ai, acc) == IF ai > Len(s.archs) THEN acc
+                         ELSE Rows(ai + 1, acc \o FlattenRows(s, SelectSeq(s.archs[ai].tables, LAMBDA t : TLen(s.tabs[t]) > 0)))
+    IN [ents |-> s.pool, alive |-> [i \in DOMAIN Rows(1, <<>>) |-> Rows(1, <<>>)[i][1]], next |-> s.pnext, avail |-> s.pavail]
+
+\* s0: a fresh or reset storage.  The pool is replaced by the dumped one; the entity index is rebuilt: every
+\* dumped alive id is appended to table 0 (the table of the archetype without components) with the generation
+\* the pool holds.  Deviation, named: the code leaves the zero value {table 0, row 0} in storage.entities for
+\* dead ids where removal writes maxTableID; nothing ever reads the index of a dead id (maxTableID is only
+\* written, never compared), so the model marks them NoTable as everywhere else.
+BLoad(s0, d) ==
+    IF Len(s0.pool) > 0 \/ s0.pavail > 0 THEN Fail(s0, "can set entity data only on a fresh or reset world")
+    ELSE LET n == Len(d.ents)
+             s1 == [s0 EXCEPT !.pool = d.ents, !.pnext = d.next, !.pavail = d.avail,
+                              !.eidx = [i \in 1..n |-> [t |-> NoTable, r |-> 0]],
+                              !.isTgt = [i \in 1..n |-> FALSE],
+                              !.tabs[1] = TExtend(@, Len(d.alive))]
+             RECURSIVE Go(_, _)
+             Go(st, k) == IF k > Len(d.alive) THEN st
+                          ELSE LET id == d.alive[k] h == <<id, st.pool[Pos(id)].gen>>
+                                   t1 == TAdd(st.tabs[1], h) IN
+                               Go([st EXCEPT !.tabs[1] = t1, !.eidx[Pos(id)] = [t |-> 1, r |-> TLen(t1)]], k + 1)
+         IN Go(s1, 1)
+
+(***************************************************************************)
 (* Abstraction: the layer-A entities represented by a storage.             *)
 (***************************************************************************)
 AliveHandles(s) == {<<p + 1, s.pool[p].gen>> : p \in {q \in DOMAIN s.eidx : s.eidx[q].t # NoTable}}
